@@ -274,7 +274,11 @@ func c04StaticDiff(spec *refcodec.Spec) []staticCase {
 		if notUnderstood {
 			opaque[sm.Name] = true
 		}
-		if cm.Family != sm.Family || cm.MsgType != sm.MsgType {
+		if cm.Family == "none" {
+			// the dispatcher does not have the generator's shape (a lookup table instead of the switch): nothing can be
+			// read off it statically; dispatch is decided dynamically and exhaustively by C05 and by the routing sweeps
+			out = append(out, staticCase{Msg: sm.Name, What: "dispatch of this message is not in the generator's shape (left to the dynamic half)", Shape: true})
+		} else if cm.Family != sm.Family || cm.MsgType != sm.MsgType {
 			out = append(out, staticCase{Msg: sm.Name, What: fmt.Sprintf("dispatched as %s/%d, table says %s/%d", cm.Family, cm.MsgType, sm.Family, sm.MsgType)})
 		}
 		var cn, sn []string
